@@ -88,10 +88,12 @@ def den(f):
 def atoms():
     from kingdon.polynomial import Polynomial, RationalPolynomial
     A = [Polynomial.fromname(v) for v in 'xyz'] + [Polynomial(c) for c in CONSTS] + [Polynomial('x'), Polynomial('-y'),
-         Polynomial([[2, 'x'], [3, 'y']]), Polynomial([[1, 'x', 'x'], [-1, 'y']]), Polynomial([])]
+         Polynomial([[2, 'x'], [3, 'y']]), Polynomial([[1, 'x', 'x'], [-1, 'y']]), Polynomial([]),
+         # non-homogeneous: one monomial is a prefix of another (x < x*y in the monomial order, but x*z > x*y*z)
+         Polynomial([[1, 'x'], [1, 'x', 'y']]), Polynomial([[3], [1, 'y'], [-2, 'y', 'z']])]
     B = [RationalPolynomial.fromname(v) for v in 'xyz'] + [RationalPolynomial([[c]]) for c in CONSTS] + \
         [RationalPolynomial([[1, 'x']], [[1, 'y']]), RationalPolynomial([]), RationalPolynomial([[1, 'x'], [1, 'y']], [[2, 'z']]),
-         RationalPolynomial(Polynomial([[1, 'x'], [-1, 'y']]))]
+         RationalPolynomial(Polynomial([[1, 'x'], [-1, 'y']])), RationalPolynomial([[1, 'x'], [1, 'x', 'y']]), RationalPolynomial([[1, 'y']], [[3]])]
     out = []
     for o in A + B:
         f = form(o)
